@@ -1,6 +1,7 @@
 import CfbVerif.Spec.Consts
 import CfbVerif.Phys.Api
 import CfbVerif.Phys.Codec
+import CfbVerif.Phys.HeaderBack
 /-!
 # C02 — write-through persistence: the byte image always reopens to the same state
 
@@ -84,6 +85,61 @@ theorem C02_entry_codec (b : ByteArray) (r : Row) (start len : Nat) (rest : List
       (entryFields r start len)[k].1 =
     some ((entryFields r start len)[k].2 % 256 ^ (entryFields r start len)[k].1) :=
   entry_field_roundtrip b r start len rest k hk
+
+/-! ### the image is laid out in sectors, and the reader reads the tables back (`Phys/Layout.lean`,
+`Phys/ReadBack.lean`, `Phys/Accepts.lean`, `Phys/HeaderBack.lean`) -/
+
+/-- **the image is the header sector followed by one sector-sized block per sector** -/
+theorem C02_image_size (p : P) (rows : List Row) (ss : SS p) (hs : SlotsOk (slotsOf p rows)) :
+    (render p rows).size = (p.numSectors + 1) * p.S := render_size p rows ss hs
+
+/-- **the reader's FAT is the writer's FAT, and `Allocator::validate` accepts it**: after every
+history of stream-level operations, in both modes, loading the FAT sectors the DIFAT lists from the
+rendered image, normalising and validating returns exactly the model's FAT -/
+theorem C02_fat_reopens (v4 : Bool) (ops : List GOp) (rows : List Row) (m : Raw.Mode) :
+    let g := grun { p := Phys.create v4, L := fun _ => 0 } ops
+    g.p.fat.size ≤ MAXREG + 1 → SlotsOk (slotsOf g.p rows) →
+    ∃ fat0, readFat (render g.p rows) g.p.S g.p.numSectors g.p.difat = .ok fat0 ∧
+      validateFat m g.p.numSectors g.p.difatSectorIds g.p.difat (normFat m g.p.numSectors fat0).toArray = .ok g.p.fat :=
+  fat_reopens_reachable v4 ops rows m
+
+/-- **the reader's MiniFAT is the writer's MiniFAT**, and the reader's pointee check accepts it -/
+theorem C02_minifat_reopens (v4 : Bool) (ops : List GOp) (rows : List Row) :
+    let g := grun { p := Phys.create v4, L := fun _ => 0 } ops
+    g.p.fat.size ≤ MAXREG + 1 → MiniBounded { p := Phys.create v4, L := fun _ => 0 } ops →
+    SlotsOk (slotsOf g.p rows) →
+    readChainU32s (render g.p rows) g.p.S (chainOrEmpty g.p g.p.miniFatStart).toArray
+        ((chainOrEmpty g.p g.p.miniFatStart).length * g.p.S / 4) 0 =
+      .ok ((List.range ((chainOrEmpty g.p g.p.miniFatStart).length * g.p.S / 4)).map (fun t => cellAt g.p.miniFat t % 256 ^ 4)) ∧
+    checkMiniPointees g.p.miniFat 0 [] = .ok () :=
+  minifat_reopens_reachable v4 ops rows
+
+/-- **`open` on the rendered image reconstructs the writer's DIFAT and FAT** (files without DIFAT
+sectors): the reader model's `open`, in both modes, reads the header the renderer wrote, takes the
+DIFAT from it, loads, normalises and validates the FAT, and continues on the writer's tables -/
+theorem C02_open_reconstructs_tables (v4 : Bool) (ops : List GOp) (rows : List Row) (m : Raw.Mode) :
+    let g := grun { p := Phys.create v4, L := fun _ => 0 } ops
+    g.p.fat.size ≤ MAXREG → SlotsOk (slotsOf g.p rows) → g.p.difatSectorIds = [] → g.p.difat.length ≤ 109 →
+    ∃ h : Raw.Header, readHeader m (render g.p rows) = .ok h ∧ h.v4 = g.p.v4 ∧ h.firstDirSector = g.p.dirStart ∧
+      h.firstMiniFatSector = g.p.miniFatStart ∧
+      openImg m (render g.p rows) = openAfterFat m (render g.p rows) h g.p.numSectors [] g.p.difat g.p.fat :=
+  open_fat_stage_reachable v4 ops rows m
+
+/-- the premises are met: in an example history (regular and mini streams, a removal) the FAT is within range, no DIFAT sector exists, and an empty row list is well-formed -/
+def exOps : List GOp :=
+  [.create 1, .resize 1 5000, .create 2, .resize 2 9000, .free 1, .create 3, .resize 3 100]
+
+example : (grun { p := Phys.create false, L := fun _ => 0 } exOps).p.fat.size ≤ MAXREG := by decide
+example : (grun { p := Phys.create false, L := fun _ => 0 } exOps).p.difatSectorIds = [] ∧
+    (grun { p := Phys.create false, L := fun _ => 0 } exOps).p.difat.length ≤ 109 := by decide
+example (p : P) : SlotsOk (slotsOf p []) := by
+  intro i r h
+  unfold slotsOf at h
+  simp only [List.foldl_nil] at h
+  have := Array.getElem?_replicate (n := (chainOrEmpty p p.dirStart).length * (p.S / Gen.DIR_ENTRY_LEN))
+    (v := (none : Option Row)) (i := i)
+  rw [this] at h
+  split at h <;> cases h
 
 example : leN (pushLE ByteArray.empty 4 0xFFFFFFFE) 0 4 = some 0xFFFFFFFE := by
   have := C02_le_roundtrip 4 ByteArray.empty 0xFFFFFFFE
